@@ -82,6 +82,11 @@ def r16_1(ctx):
                      "one shared selection, kept when listed / when not listed" if ea == eb and nega != negb else "%s  ||  %s" % (a[:200], b[:200]))
                 filts = []
         if len(filts) == 2:
+            # `{ let x = E; x }` is E and `{ let x = E; !x }` is !E (a helper's argument bound by the inliner)
+            def unlet(t):
+                m_ = re.fullmatch(r"\{let (v\d+) = (.*); (!?)\1\}", t, re.S)
+                return ("!" if m_.group(3) else "") + m_.group(2) if m_ and not re.search(r"\b%s\b" % m_.group(1), m_.group(2)) else t
+            a, b = unlet(a), unlet(b)
             # `E` and `!E` wholesale (one shared selection, negated as a whole)
             def unbang(t):
                 if t.startswith("!"):
@@ -223,9 +228,10 @@ def _uncovered(node, family, depth=0):
         return [(node, "block without contribution")]
     if k == "If":
         out = _uncovered(node["then"], family, depth + 1)
-        if node.get("else") is not None:
-            out += _uncovered(node["else"], family, depth + 1)
-        else:
+        el = node.get("else")
+        if el is not None and not (el.get("k") == "Block" and not el.get("stmts") and el.get("expr") is None):
+            out += _uncovered(el, family, depth + 1)
+        else:       # (an empty else block is the implicit else written out: a guard clause `let .. else { return }` normalises to it)
             out.append((node, "implicit else of `if %s`" % expr_str(node["cond"])[:90]))
         return out
     if k == "Match":
@@ -646,7 +652,7 @@ def _silent_paths(ctx, e):
 
 
 ACCEPTED_SILENT = [
-    (re.compile(r"^no else for `if let Some\(.*\) = .*type_params"), "a utility type written without its type argument(s): TypeScript itself rejects `Partial` / `Pick<T>`"),
+    (re.compile(r"^(no else for|else of) `if let Some\(.*\) = .*type_params"), "a utility type written without its type argument(s): TypeScript itself rejects `Partial` / `Pick<T>`"),
 ]
 
 
